@@ -79,3 +79,15 @@ Print Assumptions C04_near_excludes_far.
 Theorem C04_slab_is_near : forall p a b t2 m2, in_slab p a b t2 m2 = true -> near_seg p a b t2 = true.
 Proof. exact slab_near. Qed.
 Print Assumptions C04_slab_is_near.
+
+(** the distance classification of the oracle means what it says, for EVERY point a + (sn/sd)(b-a), 0 <= sn <= sd, of every edge:
+    "far" bounds the squared distance to all of them from below, "near" exhibits one of them that close (scaled by sd^2) *)
+Theorem C04_far_edges_sound : forall p es g2, far_edges p es g2 = true ->
+  forall e sn sd, In e es -> (0 < sd)%Z -> (0 <= sn <= sd)%Z -> (g2 * (sd * sd) <= sdist2 p (fst e) (snd e) sn sd)%Z.
+Proof. exact far_edges_sound. Qed.
+Print Assumptions C04_far_edges_sound.
+
+Theorem C04_near_path_sound : forall p es t2, near_path p es t2 = true ->
+  exists e sn sd, In e es /\ (0 < sd)%Z /\ (0 <= sn <= sd)%Z /\ (sdist2 p (fst e) (snd e) sn sd < t2 * (sd * sd))%Z.
+Proof. exact near_path_sound. Qed.
+Print Assumptions C04_near_path_sound.
